@@ -104,6 +104,9 @@ template <class S> bool compare_identity(Model<S>& m, const std::string& prop, c
   std::string hs = MASA::masa_verif_selected_handle<S>();
   if (hs != m.sel) { ok = false; hviol(prop, "selection-mismatch", why + ": library has handle '" + hs + "' selected, model '" + m.sel + "' (" + P + ")"); }
   if (MASA::masa_verif_registry_size<S>() != m.h.size()) { ok = false; hviol(prop, "registry-size-mismatch", why + ": registry holds " + std::to_string(MASA::masa_verif_registry_size<S>()) + " handles, model " + std::to_string(m.h.size())); }
+  // conservation (C19): every solution object alive is owned by a registered handle
+  if (MASA::masa_verif_live_objects<S>() != (long)MASA::masa_verif_registry_size<S>())
+    hviol("C19", std::string("live-objects-not-conserved:") + P, why + ": " + std::to_string(MASA::masa_verif_live_objects<S>()) + " solution objects alive, " + std::to_string(MASA::masa_verif_registry_size<S>()) + " handles registered");
   std::map<std::string, std::string> lm; long cnt;
   bool parsed = parse_list(listing<S>(), lm, cnt);
   CNT.listed++;
